@@ -226,6 +226,11 @@ def twoE20Bits : Nat := 0x4425AF1D78B58C40     -- 1e20 - (-1e20)
 /-- solver.py:957-963: scaling survives only with two-sided bounds and without projections -/
 def Args.scal (a : Args) : Bool := a.scaling && a.xlShape.isSome && a.xuShape.isSome && !a.hasProj
 
+/-- the scaling is APPLIED only to bounds of x0's shape with a strictly positive width everywhere (fix: bounds of the wrong
+    shape, zero-width and inverted boxes are left unscaled, so that the shape / gap tests below report them) -/
+def Args.scalApplied (a : Args) (n : Nat) : Bool :=
+  a.scal && a.x0shape == [n] && a.xlShape == some [n] && a.xuShape == some [n] && F.lt (F.fin 0) a.gapRaw
+
 /-- solver.py:969-976 -/
 def Args.effNpt (a : Args) (n : Nat) : PyVal := if a.npt.isNone then PyVal.int ((n : Int) + 1) else a.npt
 def Args.effRhobeg (a : Args) : PyVal :=
@@ -239,17 +244,14 @@ def mkEff (a : Args) (n : Nat) (pl : PList) : Eff :=
     xl := if a.hasProj then [n] else a.xlShape.getD [n],
     xu := if a.hasProj then [n] else a.xuShape.getD [n],
     npt := a.effNpt n, rhobeg := a.effRhobeg, rhoend := a.rhoend, maxfun := a.effMaxfun n,
-    gap := if a.hasProj then F.ofBits twoE20Bits else if a.scal then a.gapScaled else a.gapRaw,
-    scaling := a.scal, pl := pl }
+    gap := if a.hasProj then F.ofBits twoE20Bits else if a.scalApplied n then a.gapScaled else a.gapRaw,
+    scaling := a.scalApplied n, pl := pl }
 
 /-- solver.py:945-1009 -/
 def prepare (T : Tables) (a : Args) : Prep :=
   match a.x0shape with
   | [] => .unmodelled                           -- 0-d x0: `len(x0)` raises
   | n :: _ =>
-    if a.scal && !(a.x0shape == [n] && a.xlShape == some [n] && a.xuShape == some [n]) then
-      .unmodelled                               -- `(x0 - shift) / scale` broadcasts or raises: not modelled
-    else
       match pyInt (a.effNpt n) with
       | .error e => .raised e
       | .ok nptI =>
